@@ -46,11 +46,21 @@ def base_tasks(tier):
             for f in BASE_FUNCS]
 
 
+SPARSE_FUNCS = ['spmatrix_subscr']
+
+
+def sparse_tasks(tier):
+    t = 10000 if tier == 'quick' else 120000
+    return [{'cfile': 'sparse.c', 'fn': f, 'mode': 'spec',
+             'module': 'contracts.c.sparse_spec', 'timeout_ms': t}
+            for f in SPARSE_FUNCS]
+
+
 def tasks(tier):
     from engine.checks import c15, c20
     return c17.tasks(tier) + c15.tasks(tier, sorted(set(c15.FUNCS +
                                                         c20.FUNCS))) + \
-        lapack_tasks(tier) + base_tasks(tier)
+        lapack_tasks(tier) + base_tasks(tier) + sparse_tasks(tier)
 
 
 def run(report, tier, seed):
@@ -68,7 +78,12 @@ def run(report, tier, seed):
         'O_wrap = O_math /\\ nooverflow (DESIGN 2.4)'] + list(
             extern_lapack.DEVIATIONS)
     report.unverified += [
-        'sparse.c (all functions): outside the supported C subset',
+        'sparse.c: only the read paths of spmatrix_subscr that stay inside '
+        'the supported subset are under contract (A[i], A[I], A[i,j], '
+        'A[slice, int / slice / list]); the paths that build the result '
+        'through the sparse accumulator or other helpers are abandoned (listed '
+        'in the function report); all other functions of sparse.c are not '
+        'under contract',
         'base.c: the sparse branches of the generic products (sp_gemv, '
         'sp_gemm, sp_syrk, sp_symv, sp_axpy kernels of sparse.c) are '
         'abandoned paths; misc_solvers.c, cholmod.c, umfpack.c, '
